@@ -8,10 +8,12 @@
 (* to every datacenter in `Rounds` consecutive rounds (the loop in SyncMaxTS has no early exit), each *)
 (* round carrying the maximum collected so far. A lost reply fails the attempt; the next attempt      *)
 (* starts from a fresh estimate and - in the code as it is - with skip = FALSE again (ResetSkip).     *)
+(* Groups partitions the datacenters by the member that leads their allocators: one request per round goes to   *)
+(* every member, and its handler looks at / writes all the allocators it leads.                                  *)
 (* LocalGlobal.tla is the abstract protocol; this module is implementation-shaped and is bound to     *)
 (* the real three-server cluster by Mon_GlobalPhases.tla (the RPCs are gated one by one).             *)
 EXTENDS Integers, FiniteSets, TLC
-CONSTANTS DC, Counts, GlobalCounts, MaxPhys, MaxLocalReq, MaxGlobalReq, MaxLost, MaxPush, MaxAttempts, Rounds,
+CONSTANTS DC, Groups, Counts, GlobalCounts, MaxPhys, MaxLocalReq, MaxGlobalReq, MaxLost, MaxPush, MaxAttempts, Rounds,
           ResetSkip        \* TRUE: the code as it is; FALSE: the second-phase flag survives a failed attempt (must be refuted)
 Suffix == CHOOSE f \in [DC -> 1..Cardinality(DC)] : \A a, b \in DC : a # b => f[a] # f[b]
 None == <<-1, -1>>
@@ -27,17 +29,20 @@ TsLess(a, b) == a[1] < b[1] \/ (a[1] = b[1] /\ a[2] < b[2])
 TsMax(a, b) == IF TsLess(a, b) THEN b ELSE a
 Less(a, b) == a[1] < b[1] \/ (a[1] = b[1] /\ a[2] < b[2]) \/ (a[1] = b[1] /\ a[2] = b[2] /\ a[3] < b[3])
 (* ---- pure functions shared with the trace monitor ---- *)
-(* the SyncMaxTS handler at one datacenter whose allocator is at l: <<new allocator value, reply>> *)
-Handler(l, c, s) == IF ~s /\ ~TsLess(l, c) THEN <<l, IF l = c THEN <<l[1], l[2] + 1>> ELSE l>>
-                    ELSE <<TsMax(l, c), None>>
+(* the SyncMaxTS handler of a member that leads the allocators of the datacenters in g, which are at lo[d]:      *)
+(* <<new allocator values, reply>>. Without skip a member that has a value >= the request answers with its biggest  *)
+(* (plus one if equal) and writes nothing; otherwise every allocator below the request is raised to it.              *)
+MaxOf(S) == CHOOSE m \in S : \A x \in S : ~TsLess(m, x)
+Handler(lo, g, c, s) == LET ml == MaxOf({lo[d] : d \in g}) IN
+                        IF ~s /\ ~TsLess(ml, c) THEN <<[d \in g |-> lo[d]], IF ml = c THEN <<ml[1], ml[2] + 1>> ELSE ml>>
+                        ELSE <<[d \in g |-> TsMax(lo[d], c)], None>>
 (* the maximum after a round: the request's value or the biggest reply *)
-Collect(c, rs) == LET S == {c} \cup {r \in rs : r # None /\ r # Lost}
-                  IN CHOOSE m \in S : \A x \in S : ~TsLess(m, x)
+Collect(c, rs) == MaxOf({c} \cup {r \in rs : r # None /\ r # Lost})
 (* what GenerateTSO does once SyncMaxTS returned m: <<"again", new est>> (second phase) or <<"persist", m>> *)
 AfterSync(e, m, s, cnt) == IF ~s /\ TsLess(e, m) THEN <<"again", <<m[1], m[2] + cnt>>>> ELSE <<"persist", m>>
 
 Init == /\ loc = [d \in DC |-> <<1, 0>>] /\ glo = <<1, 0>> /\ pc = "idle" /\ n = 0 /\ est = <<0, 0>> /\ cur = <<0, 0>>
-        /\ skip = FALSE /\ round = 0 /\ pending = {} /\ reply = [d \in DC |-> None] /\ attempt = 0
+        /\ skip = FALSE /\ round = 0 /\ pending = {} /\ reply = [g \in Groups |-> None] /\ attempt = 0
         /\ done = {} /\ gfloor = {} /\ nL = 0 /\ nG = 0 /\ nLost = 0 /\ nPush = 0 /\ ok = TRUE /\ last = <<"init">>
 (* a local request: atomic; must exceed every global value returned before it began *)
 LocalGen(d, m) ==
@@ -63,23 +68,23 @@ PushGlobal == /\ nPush < MaxPush /\ nPush' = nPush + 1 /\ pc = "idle" /\ glo[1] 
 (* estimateMaxTS: the global allocator's own next value, the physical part possibly a little ahead *)
 Estimate(m, k, s) == /\ glo' = <<glo[1], glo[2] + m>>
                      /\ est' = <<glo[1] + k, glo[2] + m>> /\ cur' = <<glo[1] + k, glo[2] + m>>
-                     /\ skip' = s /\ round' = 1 /\ pending' = DC /\ reply' = [d \in DC |-> None] /\ pc' = "sync"
+                     /\ skip' = s /\ round' = 1 /\ pending' = Groups /\ reply' = [g \in Groups |-> None] /\ pc' = "sync"
 Start(m, k) == /\ pc = "idle" /\ nG < MaxGlobalReq /\ nG' = nG + 1 /\ glo[1] + k <= MaxPhys
                /\ n' = m /\ attempt' = 1 /\ gfloor' = done /\ Estimate(m, k, FALSE) /\ last' = <<"Start", m>>
                /\ UNCHANGED <<loc, done, nL, nLost, nPush, ok>>
-(* one RPC of the current round reaches its datacenter; the reply may be lost on the way back *)
-Deliver(d, lose) ==
-  /\ pc = "sync" /\ d \in pending /\ (lose => nLost < MaxLost)
-  /\ LET h == Handler(loc[d], cur, skip) IN
-       /\ loc' = [loc EXCEPT ![d] = h[1]]
-       /\ reply' = [reply EXCEPT ![d] = IF lose THEN Lost ELSE h[2]]
-  /\ pending' = pending \ {d} /\ nLost' = IF lose THEN nLost + 1 ELSE nLost
-  /\ last' = <<"Deliver", d, lose>>
+(* one request of the current round reaches its member; the reply may be lost on the way back *)
+Deliver(g, lose) ==
+  /\ pc = "sync" /\ g \in pending /\ (lose => nLost < MaxLost)
+  /\ LET h == Handler(loc, g, cur, skip) IN
+       /\ loc' = [d \in DC |-> IF d \in g THEN h[1][d] ELSE loc[d]]
+       /\ reply' = [reply EXCEPT ![g] = IF lose THEN Lost ELSE h[2]]
+  /\ pending' = pending \ {g} /\ nLost' = IF lose THEN nLost + 1 ELSE nLost
+  /\ last' = <<"Deliver", g, lose>>
   /\ UNCHANGED <<glo, pc, n, est, cur, skip, round, attempt, done, gfloor, nL, nG, nPush, ok>>
 (* all replies of the round are in *)
 EndRound(k) ==
   /\ pc = "sync" /\ pending = {} /\ last' = <<"EndRound">>
-  /\ LET rs == {reply[d] : d \in DC}
+  /\ LET rs == {reply[g] : g \in Groups}
          m == Collect(cur, rs) IN
      IF Lost \in rs THEN
        \* the attempt failed: retry from a fresh estimate, or give up
@@ -88,11 +93,11 @@ EndRound(k) ==
               /\ UNCHANGED <<loc, n, done, gfloor, nL, nG, nLost, nPush, ok>>
          ELSE /\ pc' = "idle" /\ UNCHANGED <<loc, glo, n, est, cur, skip, round, pending, reply, attempt, done, gfloor, nL, nG, nLost, nPush, ok>>
      ELSE IF round < Rounds
-       THEN /\ round' = round + 1 /\ cur' = m /\ pending' = DC /\ reply' = [d \in DC |-> None]
+       THEN /\ round' = round + 1 /\ cur' = m /\ pending' = Groups /\ reply' = [g \in Groups |-> None]
             /\ UNCHANGED <<loc, glo, pc, n, est, skip, attempt, done, gfloor, nL, nG, nLost, nPush, ok>>
      ELSE LET a == AfterSync(est, m, skip, n) IN
        IF a[1] = "again"
-         THEN /\ est' = a[2] /\ cur' = a[2] /\ skip' = TRUE /\ round' = 1 /\ pending' = DC /\ reply' = [d \in DC |-> None]
+         THEN /\ est' = a[2] /\ cur' = a[2] /\ skip' = TRUE /\ round' = 1 /\ pending' = Groups /\ reply' = [g \in Groups |-> None]
               /\ UNCHANGED <<loc, glo, pc, n, attempt, done, gfloor, nL, nG, nLost, nPush, ok>>
          ELSE /\ pc' = "persist" /\ cur' = m
               /\ UNCHANGED <<loc, glo, n, est, skip, round, pending, reply, attempt, done, gfloor, nL, nG, nLost, nPush, ok>>
@@ -103,7 +108,8 @@ Return == /\ pc = "persist" /\ glo' = TsMax(glo, cur) /\ pc' = "idle" /\ last' =
                /\ ok' = (ok /\ (\A r \in gfloor : Less(r.val, <<v[1], v[2] - n + 1, 0>>)) /\ (\A r \in done : r.val # v))
           /\ UNCHANGED <<loc, n, est, cur, skip, round, pending, reply, attempt, gfloor, nL, nG, nLost, nPush>>
 Next == \/ \E d \in DC, m \in Counts : LocalGen(d, m)
-        \/ \E d \in DC : (\E kind \in PushKinds : Push(d, kind)) \/ (\E lose \in BOOLEAN : Deliver(d, lose))
+        \/ \E d \in DC, kind \in PushKinds : Push(d, kind)
+        \/ \E g \in Groups, lose \in BOOLEAN : Deliver(g, lose)
         \/ PushGlobal \/ Return
         \/ \E k \in {0, 1} : EndRound(k) \/ \E m \in GlobalCounts : Start(m, k)
 Spec == Init /\ [][Next]_vars
